@@ -5,5 +5,6 @@ CONSTANTS
   MaxAny = 3
   KindSet = {"req", "any", "via", "viaimpl"}
   AllowSeed = TRUE
+  MaxLvl = 3
 POSTCONDITION Post
 CHECK_DEADLOCK FALSE
